@@ -6,7 +6,7 @@
 From CB Require Import Spec Unstable.
 From Coq Require Import Permutation.
 From CBP Require Import Step RefDefs C02Lemmas Arith AbsLemmas AllOps FaultDefs FaultPrims FaultDropA FaultDropB FaultUser
-     Iters DrainP ExtendIo CmpHash Ctors PhysMoves MoreOps UnstableEq Access Views RefTruncate FillExtend FaultFrame SpecCorollaries FaultClone.
+     Iters DrainP ExtendIo CmpHash Ctors PhysMoves MoreOps UnstableEq Access Views RefTruncate FillExtend FaultFrame SpecCorollaries ValueCorollaries FaultGeneric FaultHistory FaultClone.
 
 
 Theorem C06_fill_with :
@@ -58,6 +58,47 @@ Theorem C06_debug :
   fault_safe (ODebug) FFmt.
 Proof. exact (debug_fault). Qed.
 Print Assumptions C06_debug.
+
+Theorem C06_history :
+  forall (s0 : cbuf) (w0 : world),
+  WF s0 -> plan_nonneg (fault w0) -> NoDup (FaultDefs.ids (abs s0)) ->
+  (forall e : elem, In e (abs s0) -> eid e < next_id w0) ->
+  forall (ops : list op) (rs : list (outcome out)) (s : cbuf) (w : world) (L : fledger),
+  fault_run s0 w0 ops rs s w L ->
+  Forall outcome_ok rs /\
+  (user_panics rs <= 1)%nat /\
+  (user_panics rs = 1%nat -> fault w = None) /\
+  (fault w0 = None -> user_panics rs = 0%nat) /\
+  WF s /\ cap s = cap s0 /\
+  NoDup (FaultDefs.ids (abs s ++ fl_caller L ++ fl_destroyed L)) /\
+  incl (abs s ++ fl_caller L ++ fl_destroyed L) (fl_entered L) /\
+  NoDup (FaultDefs.ids (fl_entered L)) /\
+  (forall e : elem, In e (fl_entered L) -> eid e < next_id w) /\
+  FaultGeneric.plan_step (fault w0) (fault w).
+Proof. exact (fault_history). Qed.
+Print Assumptions C06_history.
+
+Theorem C06_history_no_leak :
+  forall (s0 : cbuf) (w0 : world),
+  WF s0 -> plan_nonneg (fault w0) -> NoDup (FaultDefs.ids (abs s0)) ->
+  (forall e : elem, In e (abs s0) -> eid e < next_id w0) ->
+  forall (ops : list op) (rs : list (outcome out)) (s : cbuf) (w : world) (L : fledger) (fk : fkind) (k : Z),
+  fault_run s0 w0 ops rs s w L -> fault w0 = Some (fk, k) -> fk <> FDrop ->
+  exists lost : list elem,
+    Permutation (abs s ++ fl_caller L ++ fl_destroyed L ++ lost) (fl_entered L) /\
+    incl lost (fl_at_risk L) /\ (user_panics rs = 0%nat -> lost = [] /\ fl_at_risk L = []).
+Proof. exact (fault_history_no_leak). Qed.
+Print Assumptions C06_history_no_leak.
+
+Theorem C06_history_lookers_conserve :
+  forall (s0 : cbuf) (w0 : world),
+  WF s0 -> plan_nonneg (fault w0) -> NoDup (FaultDefs.ids (abs s0)) ->
+  (forall e : elem, In e (abs s0) -> eid e < next_id w0) ->
+  forall (ops : list op) (rs : list (outcome out)) (s : cbuf) (w : world) (L : fledger) (fk : fkind) (k : Z),
+  fault_run s0 w0 ops rs s w L -> fault w0 = Some (fk, k) -> looks_only fk = true ->
+  Permutation (abs s ++ fl_caller L ++ fl_destroyed L) (fl_entered L).
+Proof. exact (fault_history_no_leak_looks). Qed.
+Print Assumptions C06_history_lookers_conserve.
 
 Theorem C06_frame :
   forall o fk s w k,
